@@ -97,6 +97,7 @@ var c05Outer = []c05Tmpl{
 	{"{S}·&¶{S}", false},
 	{"time·{S}¶{S}", false},
 	{"coproc·{¤{S}¶}", false},
+	{"coproc·{S}¶{S}", false},
 	// compound commands with redirections / in pipelines / in background
 	{"{¤{S}¶}·>f¶{S}", false},
 	{"if¤{S}¶then¤{S}¶fi·>f¶{S}", false},
@@ -130,8 +131,8 @@ var c05Outer = []c05Tmpl{
 	{"a·<<E⟦$(¤{S}¶{S}¶↵)\nE\n⟧¶{S}", false},
 	{"a·<<E⟦\"$(¤{S}¶↵)\"·${x:-$(¤{S}¶↵)}\nE\n⟧¶{S}", false},
 	{"a·<<E·b·<<F⟦$(¤{S}¶↵)\nE\n⟧⟦`{S}¶`\nF\n⟧¶{S}", false},
-	{"a·<<E·|¤{S}⟦x·$(¤{S}¶↵)\nE\n⟧", false},
-	{"a·<<E·&&¤{S}⟦x·$(¤{S}¶↵)\nE\n⟧", false},
+	{"a·<<E⟦x·$(¤{S}¶↵)\nE\n⟧·|¤{S}¶{S}", false},
+	{"a·<<E⟦x·$(¤{S}¶↵)\nE\n⟧·&&¤{S}¶{S}", false},
 	{"{¤{S}¶}·<<E⟦$(¤{S}¶↵)\nE\n⟧¶{S}", false},
 	{"a·<<'E'⟦$(·b·#·no\n)\nE\n⟧¶{S}", false},
 	// comment-only bodies (an empty list is valid in $( ), backquotes and,
